@@ -73,6 +73,7 @@ class DataSegment(Contract):
             if case['ranges'] == 'badlen':
                 nr = c.fresh_int('n_ranges')
                 c.assume(z3.And(nr >= 0, nr != D))
+            aux['nr'] = nr
             ranges = stamp(SymSeq('list', nr, lambda I_, i, rf=rf: SV(rf(i), 'real')))
             # declared ranges are positive and at most 2^w (property quantifier)
             c.assume(z3.ForAll([k], rf(k) >= 1, patterns=[rf(k)]))
@@ -128,6 +129,10 @@ class DataSegment(Contract):
              'widths': [case['w']] * D if isinstance(case['w'], int) else [mval(model, aux['wf'](z3.IntVal(i))) for i in range(D)],
              'ranges': None if 'rf' not in aux else [mval(model, aux['rf'](z3.IntVal(i))) for i in range(D)],
              'bytes': [mval(model, aux['fm'].byte(z3.IntVal(p))) % 256 for p in range(size)], 'case': case['label']}
+        if 'rf' in aux and not isinstance(aux.get('nr'), int) and aux.get('nr') is not None:
+            nr = mval(model, aux['nr'])        # the number of ranges handed in (differs from D in the 'badlen' cases)
+            if isinstance(nr, int) and 0 <= nr <= 64:
+                w['ranges'] = [mval(model, aux['rf'](z3.IntVal(i))) for i in range(nr)]
         return w
 
     def check(self, I, case, aux, out):
